@@ -142,6 +142,23 @@ def regen(log):
                 broken.append(line[len("BROKEN-TRANSLATION:"):].strip())
         if rc != 0:
             broken.append("%s failed: %s" % (script, out.strip().splitlines()[-1] if out.strip() else rc))
+    # generators whose output only ONE property reads: they report what they refuse inside their own file (that
+    # property's Props file states the refusal list is empty), and if the script itself cannot run its file is
+    # removed, so that only that property's build breaks - never an obligation of the other properties
+    for script, outfile in (("py2alias.py", "AliasGen.v"),):          # C20: alias-IR of the request-handling functions
+        path = os.path.join(VERIF, "harness", script)
+        if not os.path.exists(path):
+            continue
+        try:
+            rc, out = sh([PY, path, os.path.join(COQ, "Gen")], timeout=120, env=env, cwd=VERIF)
+        except Exception as e:
+            rc, out = 1, "%s: %s" % (type(e).__name__, e)
+        log.append("== %s rc=%d\n%s" % (script, rc, out[-4000:]))
+        if rc != 0:
+            try:
+                os.remove(os.path.join(COQ, "Gen", outfile))
+            except OSError:
+                pass
     return broken
 
 
